@@ -375,18 +375,18 @@ fn c10_o1b_response_roundtrip() {
     std::mem::forget(m);
 }
 
-static mut PARSER_CALLS: usize = 0;
-static mut PARSER_LEN: usize = 0;
-static mut PARSER_FIRST: u8 = 0;
-static mut PARSER_OK: bool = false;
+static mut PARSER_CALLS: crate::verif_env::Ghost<usize> = crate::verif_env::ghost(28, 0);
+static mut PARSER_LEN: crate::verif_env::Ghost<usize> = crate::verif_env::ghost(29, 0);
+static mut PARSER_FIRST: crate::verif_env::Ghost<u8> = crate::verif_env::ghost(30, 0);
+static mut PARSER_OK: crate::verif_env::Ghost<bool> = crate::verif_env::ghost(31, false);
 /// `internal::DHTMessage::from_bytes` (the serde_bencode parser) as an oracle: records what it was
 /// given and answers, per a harness-drawn verdict, a minimal error message or a parse error.
 fn parser_oracle(bytes: &[u8]) -> Result<internal::DHTMessage, serde_bencode::Error> {
     unsafe {
-        PARSER_CALLS += 1;
-        PARSER_LEN = bytes.len();
-        PARSER_FIRST = if bytes.is_empty() { 0 } else { bytes[0] };
-        if PARSER_OK {
+        PARSER_CALLS.v += 1;
+        PARSER_LEN.v = bytes.len();
+        PARSER_FIRST.v = if bytes.is_empty() { 0 } else { bytes[0] };
+        if PARSER_OK.v {
             Ok(internal::DHTMessage {
                 transaction_id: vec![b'a', b'a'],
                 version: None,
@@ -400,10 +400,10 @@ fn parser_oracle(bytes: &[u8]) -> Result<internal::DHTMessage, serde_bencode::Er
     }
 }
 
-static mut CONVERT_CALLS: usize = 0;
+static mut CONVERT_CALLS: crate::verif_env::Ghost<usize> = crate::verif_env::ghost(32, 0);
 /// `Message::from_serde_message` as a probe in C10.O3 (the conversion itself is C05.O1* / C10.O1*)
 fn convert_probe(msg: internal::DHTMessage) -> Result<Message, DecodeMessageError> {
-    unsafe { CONVERT_CALLS += 1 };
+    unsafe { CONVERT_CALLS.v += 1 };
     let tid = if msg.transaction_id.len() == 2 { ((msg.transaction_id[0] as u32) << 8) | msg.transaction_id[1] as u32 } else { 0 };
     std::mem::forget(msg);
     Ok(Message { transaction_id: tid, version: None, requester_ip: None, read_only: false, message_type: MessageType::Error(ErrorSpecific { code: 201, description: String::new() }) })
@@ -427,14 +427,14 @@ fn c10_o3_from_bytes_gate() {
     let len: usize = kani::any();
     kani::assume(len <= 64);
     let ok: bool = kani::any();
-    unsafe { PARSER_OK = ok };
+    unsafe { PARSER_OK.v = ok };
     let r = Message::from_bytes(&buf[..len]);
-    let calls = unsafe { PARSER_CALLS };
+    let calls = unsafe { PARSER_CALLS.v };
     if len >= 25 && buf[0] == b'd' {
         assert!(calls == 1, "C10.O3 a datagram as long as the shortest KRPC message is handed to the parser");
-        assert!(unsafe { PARSER_LEN == len && PARSER_FIRST == buf[0] }, "C10.O3 the parser sees the datagram unchanged");
+        assert!(unsafe { PARSER_LEN.v == len && PARSER_FIRST.v == buf[0] }, "C10.O3 the parser sees the datagram unchanged");
         assert!(r.is_ok() == ok, "C10.O3 a parsed message decodes, a parser error is a decode error");
-        assert!(unsafe { CONVERT_CALLS } == ok as usize, "C10.O3 a parsed message is converted exactly once");
+        assert!(unsafe { CONVERT_CALLS.v } == ok as usize, "C10.O3 a parsed message is converted exactly once");
     }
     if calls == 0 {
         assert!(r.is_err(), "C10.O3 nothing is decoded without parsing");
